@@ -1,6 +1,6 @@
 """C01 - Declarative queries return what Python evaluation of the same expression returns."""
 import json
-import vlib, c01_lib as L, c01_harness as H, c01_join as J, c01_coll as C, c01_aggr as A
+import vlib, c01_lib as L, c01_harness as H, c01_join as J, c01_coll as C, c01_aggr as A, c01_order as O
 from vlib import Corr, Search, Failure
 
 ID = 'C01'
@@ -44,12 +44,16 @@ ASSUMPTIONS = [
     'aggregates as whole-query results without GROUP BY (Model/C01Aggr.v): select(count() | count(p) | count(e) | sum(e) | sum(distinct(e)) | min(e) | max(e) | avg(e) | '
     'avg(distinct(e)) for p in P [if c]); reference = Pony\'s documented aggregates over the comprehension: None values skipped, sum of nothing 0, min / max / avg of nothing None, '
     'count(e) = number of different non-None values (strict Python would raise on None operands and has no count); the average is the exact quotient (float rounding outside); '
-    'e of type int / str (count, min, max) or int / bool (sum, avg); count(<bool>) (counts the rows where it is true), min / max of booleans (search only), several aggregates in '
-    'one query, GROUP BY, HAVING, q.sum() etc. (C24) are outside',
+    'e of type int / str (count, min, max) or int / bool (sum, avg); count(<bool>) (counts the rows where it is true), min / max of booleans (search only), HAVING, q.sum() etc. (C24) are outside; '
+    'several aggregates in one query and GROUP BY by the non-aggregate items have their own model (Model/C01Group.v; SQL leaves the order of the groups open: compared as multisets)',
+    'ordering (Model/C01Order.v): order_by(k1, desc(k2), ...) with scalar expression keys over one entity; strings compare by code point (binary collation), false < true; '
+    'Python cannot order None against a value: the reference is parameterised by where the None keys go and the theorem says they go where the dialect sorts NULL (first on '
+    'SQLite / MySQL, last on PostgreSQL; DESC reverses); rows with equal keys keep the table order in the model, SQL leaves it open (the tie ends every key list with the '
+    'primary key); order_by by position, by attribute objects or lambdas over the result, limit / page with ordering (C24) are outside',
     'and / or results are read as truth values (Python returns an operand; Pony a boolean): a selected `a and b` over non-boolean operands is outside the fragment',
     'startswith / endswith / `in` / `not in` on strings have their own model, theorem (C01_like: any string needle - literal, parameter, attribute, expression - '
     'and haystack, non-NULL) and ties (Model/C01Like.v); outside the theorems, covered by the differential search only: upper / lower, between, comparison of '
-    'conditions, NULL operands of the LIKE family; slices: C25; not covered at all here: several `for` clauses, GROUP BY / HAVING, ordering, dates, Decimal, float, JSON, '
+    'conditions, NULL operands of the LIKE family; slices: C25; not covered at all here: several `for` clauses, HAVING conditions written by the user, aggregates inside larger selected expressions, dates, Decimal, float, JSON, '
     'arrays, hybrid methods, lambdas / generators (decompiler: C03), row decoding of entities',
 ]
 RULE = ('structural: all 1330 depth<=2 expressions over a 14-leaf alphabet (sampled in the quick tier) + sampled depth-3 combinations + seeded random typed '
@@ -58,8 +62,8 @@ RULE = ('structural: all 1330 depth<=2 expressions over a 14-leaf alphabet (samp
         'distinct = distinct (provider, mode, query text); join and collection queries: hand-made shapes + seeded random queries (1-2 atoms, inner conditions of depth <= 3) '
         'on 4 providers and on real SQLite over fixed object graphs (groups with 0..4 members, None among member values and among g\'s own)')
 
-QUICK = dict(form_queries=25, form_search=150, len_queries=20, len_search=120, aggr_queries=30, aggr_search=200, coll_queries=30, coll_search=150, join_queries=40, join_search=150, like_random=60, n_random=240, n_enum=300, n_depth3=60, sem_random=90, sem_enum=110, sem_depth3=30, rows=6, search_random=260, search_ext=160)
-THOROUGH = dict(form_queries=300, form_search=3000, len_queries=300, len_search=3000, aggr_queries=400, aggr_search=4000, coll_queries=400, coll_search=3000, join_queries=500, join_search=3000, like_random=600, n_random=2500, n_enum=1330, n_depth3=500, sem_random=600, sem_enum=700, sem_depth3=200, rows=14, search_random=4000, search_ext=3000)
+QUICK = dict(order_queries=25, order_search=150, group_queries=25, group_search=150, form_queries=25, form_search=150, len_queries=20, len_search=120, aggr_queries=30, aggr_search=200, coll_queries=30, coll_search=150, join_queries=40, join_search=150, like_random=60, n_random=240, n_enum=300, n_depth3=60, sem_random=90, sem_enum=110, sem_depth3=30, rows=6, search_random=260, search_ext=160)
+THOROUGH = dict(order_queries=300, order_search=3000, group_queries=300, group_search=3000, form_queries=300, form_search=3000, len_queries=300, len_search=3000, aggr_queries=400, aggr_search=4000, coll_queries=400, coll_search=3000, join_queries=500, join_search=3000, like_random=600, n_random=2500, n_enum=1330, n_depth3=500, sem_random=600, sem_enum=700, sem_depth3=200, rows=14, search_random=4000, search_ext=3000)
 
 
 def sizes(ctx, deep=False):
@@ -178,6 +182,26 @@ def correspondence(ctx):
         disagreements.append({'what': 'model and implementation differ (%s): %s' % (m['mode'], m['query']), 'input': {k: v for k, v in m.items() if k != 'impl'},
                               'impl': m['impl'], 'coq_case': a_exprs[i][:1500]})
 
+    # (7b) GROUP BY with selected aggregates / several aggregates: select list + GROUP BY + conditions on four providers, result lists on SQLite
+    g_exprs, g_meta, g_dis, g_nontriv, g_dist = A.group_cases(ctx, A.gen_group_queries(ctx, z.get('group_queries', 25)), real)
+    disagreements += g_dis
+    dist['group_by'] = g_dist
+    g_bad = H.run_bools(ctx, g_exprs, name='group', header=A.GROUP_HEADER, prelude=real.prelude(), jobs=2)
+    for i in g_bad[:10]:
+        m = g_meta[i]
+        disagreements.append({'what': 'model and implementation differ (%s): %s' % (m['mode'], m['query']), 'input': {k: v for k, v in m.items() if k != 'impl'},
+                              'impl': m['impl'], 'coq_case': g_exprs[i][:1500]})
+
+    # (8) ordering: ORDER BY list + conditions + column on four providers, the ordered rows of real SQLite
+    o_exprs, o_meta, o_dis, o_nontriv, o_dist = O.order_cases(ctx, O.gen_queries(ctx, z.get('order_queries', 25)), real)
+    disagreements += o_dis
+    dist['order_by'] = o_dist
+    o_bad = H.run_bools(ctx, o_exprs, name='order', header=O.ORDER_HEADER, prelude=real.prelude(), jobs=2)
+    for i in o_bad[:10]:
+        m = o_meta[i]
+        disagreements.append({'what': 'model and implementation differ (%s): %s' % (m['mode'], m['query']), 'input': {k: v for k, v in m.items() if k != 'impl'},
+                              'impl': m['impl'], 'coq_case': o_exprs[i][:1500]})
+
     like_report(k_fut.result())
     join_report(j_fut.result())
     bad = main_fut.result()
@@ -190,8 +214,8 @@ def correspondence(ctx):
     if s_meta: samples.append({'structural': s_meta[len(s_meta) // 2]})
     if m_meta: samples.append({'semantic': m_meta[len(m_meta) // 2]})
     samples.append({'coq_case': exprs[len(exprs) // 3][:600]})
-    dist['cases'] = {'structural': len(s_exprs), 'semantic': len(m_exprs), 'reference': len(r_exprs), 'like': len(k_exprs), 'join': len(j_exprs), 'collection': len(c_exprs), 'collection_len': len(l_exprs), 'collection_formula': len(f_exprs), 'aggregate': len(a_exprs)}
-    return Corr(cases=len(exprs) + len(k_exprs) + len(j_exprs) + len(c_exprs) + len(l_exprs) + len(f_exprs) + len(a_exprs), nontrivial=len(s_nontriv) + len(m_nontriv) + len(k_nontriv) + len(j_nontriv) + len(c_nontriv) + len(l_nontriv) + len(f_nontriv) + len(a_nontriv), disagreements=disagreements, samples=samples, distribution=dist,
+    dist['cases'] = {'structural': len(s_exprs), 'semantic': len(m_exprs), 'reference': len(r_exprs), 'like': len(k_exprs), 'join': len(j_exprs), 'collection': len(c_exprs), 'collection_len': len(l_exprs), 'collection_formula': len(f_exprs), 'aggregate': len(a_exprs), 'group_by': len(g_exprs), 'order_by': len(o_exprs)}
+    return Corr(cases=len(exprs) + len(k_exprs) + len(j_exprs) + len(c_exprs) + len(l_exprs) + len(f_exprs) + len(a_exprs) + len(g_exprs) + len(o_exprs), nontrivial=len(s_nontriv) + len(m_nontriv) + len(k_nontriv) + len(j_nontriv) + len(c_nontriv) + len(l_nontriv) + len(f_nontriv) + len(a_nontriv) + len(g_nontriv) + len(o_nontriv), disagreements=disagreements, samples=samples, distribution=dist,
                 note='every case is a boolean computed by vm_compute inside Coq from the model and the serialised implementation output')
 
 
@@ -239,6 +263,10 @@ def search(ctx, deep):
     areal = H.RealDb(table_rows(ctx, 8))
     a_evals, a_fail, a_nontriv, a_dist = A.aggr_search(ctx, A.gen_queries(ctx, z.get('aggr_search', 200), search=True), areal, H.RealDb)
     evals += a_evals; failures += a_fail; nontriv |= a_nontriv; dist['aggregate'] = a_dist
+    g_evals, g_fail, g_nontriv, g_dist = A.group_search(ctx, A.gen_group_queries(ctx, z.get('group_search', 150)), areal, H.RealDb)
+    evals += g_evals; failures += g_fail; nontriv |= g_nontriv; dist['group_by'] = g_dist
+    o_evals, o_fail, o_nontriv, o_dist = O.order_search(ctx, O.gen_queries(ctx, z.get('order_search', 150)), areal, H.RealDb)
+    evals += o_evals; failures += o_fail; nontriv |= o_nontriv; dist['order_by'] = o_dist
     dist['inputs'] = {'corpus': len([1 for i in inputs if i[2] == 'corpus']), 'total': len(inputs)}
     samples = [{'query': 'select(p for p in P if %s)' % L.src(inputs[len(inputs) // 2][0]), 'params': inputs[len(inputs) // 2][1]}]
     return Search(evaluations=evals, failures=failures, nontrivial=len(nontriv), samples=samples, distribution=dist, exhaustive=False)
@@ -250,6 +278,8 @@ def replay(ctx, data):
     if 'len' in data: return C.replay_len(data['len'])
     if 'form' in data: return C.replay_form(data['form'])
     if 'aggr' in data: return A.replay_aggr(data['aggr'], H.RealDb)
+    if 'group' in data: return A.replay_group(data['group'], H.RealDb)
+    if 'order' in data: return O.replay_order(data['order'], H.RealDb)
     return H.replay_sqlite(data)
 
 
@@ -266,9 +296,10 @@ LEVEL_TEXT = ('Machine-checked proof (Coq 8.16.1, structural induction on the ex
               'scalar subqueries, correlated inner conditions (C01_collection_atom, C01_collection_rows), the same subquery conditions combined freely with and / or / not '
               'and with sum / min / max / count of an item expression over the collection, also as selected values (C01_collection_formula_rows: every subquery has the stored form of its three-valued Python value), len(g.members) / count(g.members) in conditions with the LEFT JOIN + '
               'GROUP BY + HAVING statement the translator emits (C01_collection_len_rows), and aggregates as whole-query results without GROUP BY - count / sum / '
-              'min / max / avg of a scalar expression over the filtered rows with the DISTINCT forms, NULL skipping and sum of nothing = 0 (C01_aggregate) - each stated except '
+              'min / max / avg of a scalar expression over the filtered rows with the DISTINCT forms, NULL skipping and sum of nothing = 0 (C01_aggregate), several aggregates and GROUP BY by '
+              'the non-aggregate items of the select list incl. NULL keys (C01_group_rows), order_by with expression keys and the NULL placement of each dialect (C01_order_rows) - each stated except '
               'for recorded, refuted defects.')
-LEVEL_NOTE = ('Partial: joins over several loop variables, collection conditions other than the exists / in / count / len atoms (avg over a collection, sum(g.members.a)-style attribute lifting with GROUP BY, nested collections), aggregates with GROUP BY / HAVING or several per query, ordering, dates, Decimal / float, JSON, arrays, hybrid methods, lambdas and generator '
+LEVEL_NOTE = ('Partial: joins over several loop variables, collection conditions other than the exists / in / count / len atoms (avg over a collection, sum(g.members.a)-style attribute lifting with GROUP BY, nested collections), aggregates in HAVING or inside larger selected expressions, dates, Decimal / float, JSON, arrays, hybrid methods, lambdas and generator '
               'objects (decompiler), entity row decoding are outside the theorem and outside this check. Trusted: Coq kernel + vm_compute; the hand-written translation '
               'model (tied structurally on every run); documentation models of PostgreSQL / MySQL (nothing executes there); the reference reading of None written from '
               'the property statement.')
